@@ -9,6 +9,7 @@
 //!   spanned_key_fidelity <doc>   real map keys Spanned<Newtype> / Spanned<Spanned<String>> / Newtype(Spanned<String>) / .. against their twin
 //!   routes <type> <doc> <val>    every decoding route on a document / single-value text    (C13)
 //!   routes_ser <type> <value>    the same on the text obtained by serializing the value    (C13)
+//!   slice <type> <bytes>         toml_edit::de::from_slice on any byte string              (C13, text level)
 //!   tryfrom <type> <value>       Value/Table::try_from vs parse(to_string)                 (C13)
 //!   canon <type> <value>         determinism / fixpoint / plain vs pretty / Table twice    (C17)
 //!   display <tomlvalue>          toml::Value built with an explicit key insertion order     (C17)
@@ -294,6 +295,35 @@ fn cmd_routes(args: &Args) -> String {
     let val = std::str::from_utf8(&args[2]).ok().filter(|s| !s.is_empty());
     let mut reference = None;
     routes_line(&ty, Some(doc), val, &mut reference)
+}
+
+/// toml_edit::de::from_slice on ANY byte string (C13, text level): `utf8=` is std's verdict on the bytes, `valid=` the
+/// parser's on the text (na when it is no text), `esl=ok:<dump>|utf8err|err` (utf8err: the error is the Utf8Error's message)
+fn cmd_slice(args: &Args) -> String {
+    if args.len() < 2 {
+        return "BADCASE args".into();
+    }
+    let ty = match arg_str(&args[0]).and_then(|s| parse_type(s).map_err(|e| format!("BADCASE type {e}"))) {
+        Ok(t) => Rc::new(t),
+        Err(e) => return e,
+    };
+    let bytes: &[u8] = &args[1];
+    let text = std::str::from_utf8(bytes).ok();
+    let res = with_type(&ty, || toml_edit::de::from_slice::<DynOwned>(bytes).map_err(|e| e.to_string()));
+    let esl = match res {
+        Ok(d) => format!("ok:{}", dyn_string(&d.0)),
+        Err(m) if m.starts_with("invalid utf-8") || m.starts_with("incomplete utf-8") => "utf8err".to_string(),
+        Err(_) => "err".to_string(),
+    };
+    format!(
+        "utf8={} valid={} esl={}",
+        text.is_some() as u8,
+        match text {
+            Some(s) => (valid_doc(s) as u8).to_string(),
+            None => "na".to_string(),
+        },
+        esl
+    )
 }
 
 fn cmd_routes_ser(args: &Args) -> String {
@@ -824,6 +854,7 @@ fn run_cmd(cmd: &str, args: &Args) -> String {
         "spanned_fidelity" => cmd_spanned_fidelity(args),
         "spanned_key_fidelity" => cmd_spanned_key_fidelity(args),
         "routes" => cmd_routes(args),
+        "slice" => cmd_slice(args),
         "routes_ser" => cmd_routes_ser(args),
         "tryfrom" => cmd_tryfrom(args),
         "canon" => cmd_canon(args),
